@@ -5,7 +5,7 @@ import os
 import re
 
 import vextract
-from core import (CANARY, CONTRACT, DISCHARGED, FAILED, LEMMA, REPO, ROOT, UNDECIDED, WORK, Ob, run)
+from core import (WITNESS, CANARY, CONTRACT, DISCHARGED, FAILED, LEMMA, REPO, ROOT, UNDECIDED, WORK, Ob, run)
 from rsparse import LostAnchor
 
 SEMANTIC = [
@@ -144,7 +144,7 @@ def verify_unit(unit, lemma_items=(), want_canary=True):
         for cl in it["clauses"]:
             name = "%s::%s::%s" % (unit, it["item"], cl)
             fn = "%s:%d %s" % (it["file"], it["repo_line"], it["item"])
-            kind = LEMMA if it["item"] in lemma_set else CONTRACT
+            kind = WITNESS if it.get("witness") else (LEMMA if it["item"] in lemma_set else CONTRACT)
             key = (it["item"], cl)
             # an `inv#k.i` failure is reported under inv#k
             fl = failed.get(key) or (failed.get((it["item"], cl.split(".")[0])) if cl.startswith("inv") else None)
@@ -192,7 +192,7 @@ def _canary(unit, spec, b):
     items2 = []
     for it in sp2["items"]:
         items2.append(it)
-        if it["kind"] == "fn" and not it.get("no_canary"):
+        if it["kind"] == "fn" and not it.get("no_canary") and not it.get("witness"):
             c = copy.deepcopy(it)
             c["ensures"] = list(c.get("ensures", [])) + ["false"]
             c["rename"] = it["name"] + "__canary"
